@@ -396,9 +396,29 @@ template <typename C> inline const void* ctx_addr_of(C& c) {
 // control flavour tags
 struct TagGuard {}; struct TagPlan {}; struct TagFull {}; struct TagConst {};
 
+// MSan builds: a task slot that is not part of the plan holds no live task. The next emplace() starts a new object there, so whatever
+// its payload members held before is indeterminate from then on; poisoning them lets MemorySanitizer see a constructor that
+// leaves one of them unwritten (the bytes are otherwise "initialised" by the previous occupant).
+#if VX_PLANS
+inline unsigned occupied_tasks(const Inst& m) {
+	const auto& pd = m._core.planData; unsigned occ = 0; int n = 0;
+	for (ffsm2::Long i = pd.tasksBounds.first; i != ffsm2::INVALID_LONG && i < Inst::TASK_CAPACITY && n <= static_cast<int>(Inst::TASK_CAPACITY); i = pd.taskLinks._items[i].next, ++n) occ |= 1u << i;
+	return occ;
+}
+#endif
+#if defined(VX_MSAN) && VX_PLANS && VX_PAYLOAD
+inline void poison_vacant(Inst& m) {
+	auto& pd = m._core.planData; const unsigned occ = occupied_tasks(m);
+	for (int i = 0; i < static_cast<int>(Inst::TASK_CAPACITY); ++i) if (!((occ >> i) & 1u)) { __msan_poison(&pd.tasks._items[i].storage, sizeof pd.tasks._items[i].storage); __msan_poison(&pd.tasks._items[i].payloadSet, sizeof pd.tasks._items[i].payloadSet); }
+}
+#else
+inline void poison_vacant(Inst&) {}
+#endif
+
 template <typename C>
 inline void obs_common(Ev& e, C& c) {
 	Inst* m = curInst();
+	poison_vacant(*m);
 	e.ctl_sid = c.stateId();
 	uint8_t cm = 0, mm = 0;
 	for (int k = 0; k < N; ++k) { if (c.isActive(static_cast<ffsm2::StateID>(k))) cm |= static_cast<uint8_t>(1u << k); if (m->isActive(static_cast<ffsm2::StateID>(k))) mm |= static_cast<uint8_t>(1u << k); }
@@ -642,11 +662,17 @@ inline size_t make_key(const Inst& m, uint8_t* out) {
 #if VX_PLANS
 	const auto& pd = c.planData;
 	w.u8(pd.tasks._vacantHead); w.u8(pd.tasks._vacantTail); w.u8(pd.tasks._last); w.u8(pd.tasks._count);
+#if defined(VX_MSAN) && VX_PAYLOAD
+	const unsigned occ_ = occupied_tasks(m);
+#endif
 	for (int i = 0; i < static_cast<int>(Inst::TASK_CAPACITY); ++i) {
 		const auto& it = pd.tasks._items[i];
 		w.u8(it.origin); w.u8(it.destination);
 #if VX_PAYLOAD
-		uint8_t ps; memcpy(&ps, &it.payloadSet, 1); w.u8(ps); w.raw(&it.storage, PSIZE);
+#ifdef VX_MSAN
+		if (!((occ_ >> i) & 1u)) { w.u8(0); uint8_t z[PSIZE]; memset(z, 0, sizeof z); w.raw(z, PSIZE); } else   // payload members of vacant slots are poisoned (see poison_vacant)
+#endif
+		{ uint8_t ps; memcpy(&ps, &it.payloadSet, 1); w.u8(ps); w.raw(&it.storage, PSIZE); }
 #endif
 		w.u8(pd.taskLinks._items[i].prev); w.u8(pd.taskLinks._items[i].next);
 	}
